@@ -150,3 +150,18 @@ package platform
 //@   modifies alloc()
 //@   ensures #every-load-yields-fresh-objects result.1 == nil ==> isnew(result.0) && isnew(result.0.Default)
 //@   ensures #nil-on-error result.1 != nil ==> result.0 == nil
+// NewPlatform / NewPlatformVariant hand out the freshly loaded default section (merged with the named variant), never an
+// object that existed before the call; an unknown variant is a platform error
+// (documented input: a name / path / URL string or the bytes of a definition; any other dynamic type reaches a nil
+// dereference - outside C17's quantifier, noted in DESIGN.md)
+//@ func NewPlatform [C17]
+//@   requires typeis(f, "string") || typeis(f, "[]byte")
+//@   ensures #a-platform-of-its-own result.1 == nil ==> isnew(result.0)
+//@   ensures #nil-on-error result.1 != nil ==> result.0 == nil
+//@   at call setDriver#1 assert #the-driver-is-built-from-the-loaded-default-section arg1 == pd.Default && isnew(arg1) && arg0 == host && arg2 === opts
+//@ func NewPlatformVariant [C17]
+//@   requires typeis(f, "string") || typeis(f, "[]byte")
+//@   ensures #a-platform-of-its-own result.1 == nil ==> isnew(result.0)
+//@   ensures #nil-on-error result.1 != nil ==> result.0 == nil
+//@   at call mergeVariant#1 assert #the-named-variant-is-merged-over-the-loaded-default recv == pd.Default && isnew(recv) && has(pd.Variants, variant) && arg0 == get(pd.Variants, variant)
+//@   at call setDriver#1 assert #the-driver-is-built-from-the-merged-section arg1 == pd.Default && arg0 == host && arg2 === opts
